@@ -296,6 +296,7 @@ type Outcome struct {
 	Msg       string
 	Details   []Detail
 	RawMsgs   [][]byte // decompressed message payloads, in order
+	badFrames map[int]bool
 	Msgs      []proto.Message
 	DecodeErr []string
 	Headers   http.Header // everything the client saw in the head
@@ -311,6 +312,15 @@ func (o *Outcome) bad(format string, args ...any) {
 }
 
 func (o *Outcome) OK() bool { return o.Kind == "ok" }
+
+// markUndecodableFrame records that the message at index i of RawMsgs was flagged
+// compressed but is not in the declared compression: no client can decode it.
+func (o *Outcome) markUndecodableFrame(i int) {
+	if o.badFrames == nil {
+		o.badFrames = map[int]bool{}
+	}
+	o.badFrames[i] = true
+}
 
 func (o *Outcome) Summary() string {
 	return fmt.Sprintf("status=%d kind=%s code=%d msg=%q details=%d msgs=%d malformed=%v ct=%q enc=%q",
@@ -406,7 +416,7 @@ func ParseResponse(c *ClientReq, rec *Recorder) *Outcome {
 		for i, raw := range o.RawMsgs {
 			m := newMsg(c.M.Out())
 			var err error
-			if o.Undecodable {
+			if o.Undecodable || o.badFrames[i] {
 				o.Msgs = append(o.Msgs, nil)
 				continue
 			}
@@ -534,6 +544,9 @@ func parseConnectStream(c *ClientReq, o *Outcome, body []byte, httpTrailers http
 				o.bad("frame %d is flagged compressed but no Connect-Content-Encoding was declared", i)
 			} else if d, err := decompressWith(enc, payload); err != nil {
 				o.bad("frame %d flagged compressed does not decompress with %s: %v", i, enc, err)
+				if f.Flags&^1 == 0 {
+					o.markUndecodableFrame(len(o.RawMsgs))
+				}
 			} else {
 				payload = d
 			}
@@ -712,6 +725,9 @@ func parseGRPC(c *ClientReq, o *Outcome, body []byte, httpTrailers http.Header, 
 				o.bad("frame %d is flagged compressed but no Grpc-Encoding was declared", i)
 			} else if d, err := decompressWith(enc, payload); err != nil {
 				o.bad("frame %d flagged compressed does not decompress with %s: %v", i, enc, err)
+				if f.Flags&^1 == 0 {
+					o.markUndecodableFrame(len(o.RawMsgs))
+				}
 			} else {
 				payload = d
 			}
